@@ -122,6 +122,8 @@ def replay(args: Tuple[Dict[str, Any], Any]) -> List[Tuple[str, Dict[str, Any], 
             try:
                 if h["act"] == "join":
                     p = prev.join(arg)
+                elif h["act"] == "join2":
+                    p = prev.join(arg, untext(h["arg2"]))
                 elif h["act"] == "slash":
                     p = prev / arg
                 else:
@@ -149,7 +151,7 @@ def replay(args: Tuple[Dict[str, Any], Any]) -> List[Tuple[str, Dict[str, Any], 
 
     feats = sorted({tok_kind(t.replace("~1", "/").replace("~0", "~")) for t in toks} - {"name", "canonical-int"})
     sig = f"{bad[0]}|{'+'.join(feats) or 'plain'}"
-    case = {"start": text0, "actions": [(h["act"], untext(h["arg"])) for h in rec["hist"]], "failed": bad, "tagged": rec}
+    case = {"start": text0, "actions": [(h["act"], untext(h["arg"]), untext(h["arg2"])) for h in rec["hist"]], "failed": bad, "tagged": rec}
     return [(sig, case, bad[0])]
 
 
